@@ -161,3 +161,30 @@ Proof.
 Qed.
 
 End Regular.
+
+(** * The Hubbard atom (mu = 1, U = 3, beta = 1) with Gibbs weights, tolerance 1/1000, genuine Matsubara
+      frequencies: regular at every index triple. *)
+Definition hubE : list R := [0; -1; -1; 1].
+Definition hubZ : R := 1 + exp 1 + exp 1 + exp (-1).
+Definition hubW : list R := [1 / hubZ; exp 1 / hubZ; exp 1 / hubZ; exp (-1) / hubZ].
+
+Definition hubC : edata C := {|
+  ed_beta := RtoC 1; ed_tol := RtoC (1 / 1000);
+  ed_E := map RtoC hubE; ed_w := map RtoC hubW;
+  ed_C := fun i => op_matrix C CNum 2 (cann i);
+  ed_CX := fun i => op_matrix C CNum 2 (cdag i);
+  ed_freq := fermi 1 |}.
+
+Example hubC_regular : edata_regular C CNum 4 hubC.
+Proof.
+  unfold hubC. apply matsubara_edata_regular.
+  - lra.
+  - lra.
+  - assert (H := PI2_1). lra.
+  - intros a b Ha Hb H.
+    destruct a as [|[|[|[|a]]]]; try lia; destruct b as [|[|[|[|b]]]]; try lia; cbn [nth hubE hubW] in *;
+      try (split; reflexivity);
+      exfalso; revert H; unfold Rabs; destruct (Rcase_abs _); lra.
+  - intros i. apply (op_matrix_square C CNum 2).
+  - intros i. apply (op_matrix_square C CNum 2).
+Qed.
